@@ -146,3 +146,27 @@ def build_tantivy():
         print(b.stderr[-3000:])
         return 2
     return 0
+
+
+def build_repo_bins():
+    """the repository's command-line tools, built from the working tree (never under /tmp)"""
+    b = subprocess.run(["cargo", "build", "--release", "--offline", "-p", "manipulate_model", "-p", "predict", "-p", "evaluate",
+                        "-p", "convert_kytea_model", "-p", "train", "--target-dir", os.path.join(ROOT, "target", "repo")],
+                       cwd="/repo", capture_output=True, text=True, env=ENV)
+    if b.returncode != 0:
+        print(b.stderr[-3000:])
+        return 2
+    return 0
+
+
+def c19_cli_roundtrip(tier, seed):
+    """C19: dump the dictionary with the real manipulate_model, replace it with the unmodified dump, compare the model files byte for byte"""
+    r = subprocess.run([HARNESS, "c19cli", tier, str(seed)], capture_output=True, text=True, env=ENV)
+    m = re.search(r"cli_roundtrip models=(\d+) failures=(\d+)", r.stdout)
+    out = {"name": "cli_dump_replace", "evaluations": int(m.group(1)) if m else 0, "failures": [], "suspicions": [],
+           "note": "manipulate_model --dump-dict then --replace-dict on generated models with CSV-hostile words/comments and 32-bit weights; output model compared byte for byte; malformed record must be rejected"}
+    if r.returncode != 0 or m is None:
+        out["failures"].append({"what": "the CLI round-trip run crashed", "stderr": r.stderr[-500:]})
+    for f in [l for l in r.stdout.splitlines() if l.startswith("FAIL")][:3]:
+        out["failures"].append({"what": "dump + replace did not reproduce the model (or a malformed record was accepted)", "detail": f[:2000]})
+    return out
